@@ -19,7 +19,7 @@ RULE = ("authentic packets from the independent V2 encoder (frame lengths 0,1,15
         "substitutions (8 values/position quick, all 255 for 3 packets thorough), random multi-byte corruptions, length-field "
         "rewrites; each fault class also replayed through LAN.send with the model device sending the corrupted packet (on a V2 connection - as the reply (to every transmission, or to the first one only with the default retry budget), right behind an authentic reply, or pushed while the connection is idle 0.05 s .. 2 h before the next exchange (all host clocks follow the virtual clock), or as the answer to a request that found an authentic packet waiting unread - and inside an intact V3 envelope on an authenticated V3 connection). Oracle: "
         "_Packet.decode raises ProtocolError (returning the original frame is tolerated and counted; any other result or "
-        "exception type is a violation); in half of the cases the authentic packet is decoded first, as on a live connection. Non-trivial: corrupted != authentic, >= 6 bytes, still starts with 5A5A. Distinct by (packet, fault).")
+        "exception type is a violation); in half of the cases the authentic packet is decoded first, as on a live connection, in a third of them from a reused bytearray into which the altered bytes are then written in place. Non-trivial: corrupted != authentic, >= 6 bytes, still starts with 5A5A. Distinct by (packet, fault).")
 ASSUMPTIONS = ["fault model does not re-sign (a correctly re-signed packet is a different authentic packet; containment of those is C09)"]
 
 LENGTHS = [0, 1, 15, 16, 17, 31, 32, 33, 100, 255]
@@ -161,8 +161,19 @@ def check_case(case: dict):
                 return ("decode/authentic-misdecoded", "authentic packet not decoded to its frame")
         except Exception as e:
             return (f"decode/authentic-rejected/{type(e).__name__}", f"authentic packet rejected: {e!r}")
+    target = bad
+    if case.get("inplace") and len(bad) == len(pkt):
+        # the receive buffer is a reused bytearray: the authentic packet was decoded from it, then the altered bytes were written
+        # into the same object
+        buf = bytearray(pkt)
+        try:
+            _Packet.decode(buf)
+        except Exception:
+            pass
+        buf[:] = bad
+        target = buf
     try:
-        got = _Packet.decode(bad)
+        got = _Packet.decode(target)
     except ProtocolError:
         return None
     except Exception as e:
@@ -198,7 +209,7 @@ def run(ctx) -> None:
         for bit in range(plen * 8):
             n += 1
             if ctx.mine(n):
-                case = dict(base, fault=["flip", bit], prime=bool((bit // 8) % 2))
+                case = dict(base, fault=["flip", bit], prime=bool((bit // 8) % 2), inplace=bit % 3 == 0)
                 ctx.check(case, lambda c: _run_one(ctx, c))
         # every truncation length
         for k in range(plen):
@@ -275,7 +286,7 @@ def run(ctx) -> None:
         st.tuples(st.just("length"), st.integers(0, 65535)).map(list),
         st.tuples(st.just("multi"), st.lists(st.tuples(st.integers(0, 400), st.integers(1, 255)).map(list), min_size=2, max_size=8)).map(list),
     )
-    cases = st.fixed_dictionaries({"frame": hexb(gens.frames_bytes(255)), "id": gens.device_ids(64), "fault": fault, "prime": st.booleans()})
+    cases = st.fixed_dictionaries({"frame": hexb(gens.frames_bytes(255)), "id": gens.device_ids(64), "fault": fault, "prime": st.booleans(), "inplace": st.booleans()})
     send_cases = st.fixed_dictionaries({"frame": hexb(gens.frames_bytes(120)), "id": gens.device_ids(64), "fault": fault, "via": st.sampled_from(["send", "send3"])},
                                        optional={"arrival": st.sampled_from(["reply", "behind", "idle", "once", "queued"]), "idle_wait": st.sampled_from([0.05, 1.9, 2.6, 30.0, 7200.0])})
 
